@@ -35,7 +35,7 @@ type c09Case struct {
 }
 
 func genProfileAndGraphs(t *rapid.T, name string, nGraphs int) (string, []*m.Graph, *m.Profile) {
-	g := &fgen{t: t, maxAtoms: 4, maxDepth: 3, maxWidth: 3, budget: 7, quant: true, edges: 2, viaPaths: true}
+	g := &fgen{t: t, maxAtoms: 4, maxDepth: 3, maxWidth: 3, budget: 7, quant: true, edges: 2, viaPaths: true, constants: true}
 	p := &m.Profile{Name: name}
 	nv := rapid.IntRange(1, 3).Draw(t, "nv")
 	for i := 0; i < nv; i++ {
